@@ -22,7 +22,10 @@ Inductive vop :=
 | OTrain (vs : list vec) (err : Z)
 | ODump (st : vstate)
 | OWrite (bm bytes : list Z) (n : Z)
-| OReload (bytes : list Z) (err n : Z).
+| OReload (bytes : list Z) (err n : Z)
+| ONodeLaw (a : list (Z * Z)) (err : Z) (b : list (Z * Z)).
+(* ONodeLaw: the following search names stored nodes and succeeded with answer [a]; [b] is the
+   implementation's answer to the same search with each node id replaced by that node's stored vector *)
 
 Definition pvop : P vop :=
   t <- pz ;;
@@ -38,6 +41,7 @@ Definition pvop : P vop :=
      ret (ODump {| st_trained := tr; st_centroids := cs; st_codebooks := bs; st_lists := ls; st_deleted := del |}))
   else if t =? 7 then (bm <- pzs ;; b <- pzs ;; n <- pz ;; ret (OWrite bm b n))
   else if t =? 8 then (b <- pzs ;; e <- pz ;; n <- pz ;; ret (OReload b e n))
+  else if t =? 9 then (a <- ppairs ;; e <- pz ;; b <- ppairs ;; ret (ONodeLaw a e b))
   else (fun _ => None).
 
 (** ---- structural comparison (verif snapshot) ---- *)
@@ -212,6 +216,17 @@ Definition probe_specb (p : params) (live : list (Z * vec)) (im : vstate) (rq : 
         | None => true
         end) live).
 
+(** C02: a search from stored node ids is equivalent to the search with those nodes' stored vectors.
+    Both answers come from the implementation; they must carry the same scores in the same order, and
+    the same (id, score) pairs except inside the group of entries tied with the last one (where the
+    cut after aggregation may keep either member of a tie). *)
+Definition node_law_ok (a b : list (Z * Z)) : bool :=
+  let a := canon32_pairs a in let b := canon32_pairs b in
+  same_pairs a b ||
+  (list_eqb (map snd a) (map snd b) &&
+   let lastk := snd (last a (0, 0)) in
+   same_pairs (filter (fun x => negb (snd x =? lastk)) a) (filter (fun x => negb (snd x =? lastk)) b)).
+
 Record hstate := { h_model : vstate; h_live : list (Z * vec); h_i : Z; h_weak : Z; h_impl : option vstate;
                    h_div : option (list Z) (* first state divergence, after which the model follows the implementation's state and only the history oracles decide *) }.
 
@@ -263,6 +278,8 @@ Definition step_check (p : params) (h : hstate) (o : vop) : hstate + list Z :=
         inl {| h_model := im; h_live := h_live h; h_i := h_i h + 1; h_weak := h_weak h; h_impl := Some im;
                h_div := match h_div h with Some d => Some d | None => Some [h_i h; -6] end |}
       else inr (v_violation [h_i h; -6])
+  | ONodeLaw a err b =>
+      if (err =? 0) && node_law_ok a b then next s (h_live h) 0 else inr (v_violation [h_i h; -9])
   | OSearch rq err out =>
       let out := canon32_pairs out in
       match execute p s rq with
